@@ -133,10 +133,12 @@ func plan(tier string, seed int64) []kit.Batch {
 	add := func(name string, n int, p params, env ...string) {
 		bs = append(bs, kit.Batch{Name: name, Seed: seed*1000 + int64(len(bs)), N: n, Params: kit.MkParams(p), Env: env})
 	}
-	per, nconc, nck, nrep := 100000, 10, 40, 5
+	// Starting a race-instrumented process costs ~1 s, so the scenarios that re-execute the binary
+	// (repro, ckpt) are spread over several small batches that run in parallel.
+	per, nconc, nck, nrep, split := 100000, 10, 24, 2, 2
 	rep := 1
 	if tier == "thorough" {
-		per, nconc, nck, nrep = 1500000, 12, 1500, 40
+		per, nconc, nck, nrep, split = 1500000, 12, 1000, 25, 3
 		rep = 2
 	}
 	for r := 0; r < rep; r++ {
@@ -146,10 +148,12 @@ func plan(tier string, seed int64) []kit.Batch {
 		}
 		add(fmt.Sprintf("conc-default-%d", r), nconc, params{"conc", "default", per}, "GOMAXPROCS=8")
 		add(fmt.Sprintf("lazy-%d", r), nconc*4, params{"lazy", "default", per / 20}, "GOMAXPROCS=8")
-		add(fmt.Sprintf("repro-explicit-%d", r), nrep, params{"repro", "sequential", 0})
-		add(fmt.Sprintf("repro-default-%d", r), nrep, params{"repro", "default", 0})
-		add(fmt.Sprintf("ckpt-explicit-%d", r), nck, params{"ckpt", "sequential", 0}, "GOMAXPROCS=4")
-		add(fmt.Sprintf("ckpt-default-%d", r), nck, params{"ckpt", "default", 0}, "GOMAXPROCS=4")
+		for i := 0; i < split; i++ {
+			add(fmt.Sprintf("repro-explicit-%d-%d", r, i), nrep, params{"repro", "sequential", 0})
+			add(fmt.Sprintf("repro-default-%d-%d", r, i), nrep, params{"repro", "default", 0})
+			add(fmt.Sprintf("ckpt-explicit-%d-%d", r, i), nck, params{"ckpt", "sequential", 0}, "GOMAXPROCS=4")
+			add(fmt.Sprintf("ckpt-default-%d-%d", r, i), nck, params{"ckpt", "default", 0}, "GOMAXPROCS=4")
+		}
 		add(fmt.Sprintf("ckpt-parallel-%d", r), 3, params{"ckpt", "parallel", 0})
 	}
 	return bs
@@ -512,7 +516,7 @@ func runCkpt(b kit.Batch, r *kit.R, p params) {
 			old = append(old, cur)
 		}
 		// a freshly built process (its generator may already have been used by setup code)
-		if c.Index%4 == 0 || r.Tier == "thorough" && c.Index%16 == 1 {
+		if every := map[bool]int{false: 6, true: 10}[r.Tier == "thorough"]; c.Index%every == 0 {
 			preFresh := []int{0, 0, rng.Intn(100)}[rng.Intn(3)]
 			rsp, err := runHelper(helperReq{Use: use, Ckpt: payload, Pre: preFresh, N: m}, 1+rng.Intn(4))
 			if err != nil {
